@@ -3,7 +3,8 @@
    Print Assumptions.  Models: model/PqBits.v, PqDelta.v (faithful decoders with resumable state,
    spec encoders), PqThrift.v, PqWrite.v (the spec file writer). *)
 From Coq Require Import NArith ZArith List Bool.
-From GV Require Import model.PqBits model.PqDelta model.PqDeltaOld proofs.PqBitsProofs proofs.PqDeltaProofs proofs.PqPlainProofs.
+From GV Require Import model.PqBits model.PqDelta model.PqDeltaOld proofs.PqBitsProofs proofs.PqDeltaProofs proofs.PqPlainProofs
+  proofs.PqDbpSplit proofs.PqDbpRoundtrip proofs.PqDbpAnySplit.
 Import ListNotations.
 Open Scope N_scope.
 
@@ -154,9 +155,74 @@ Theorem C10_bss_read_split : forall n1 n2 st,
 Proof. exact bss_read_split. Qed.
 Print Assumptions C10_bss_read_split.
 
-(* NOT proved (kept as the targets of the next revision):
-   - dbp_roundtrip: forall bits vals, values < 2^bits -> dbp_decode_split bits (dbp_encode bits blk mbc vals) [length vals] = Ok [vals]
-     for 2 <= length vals (single read; a closed instance with 200 values, two blocks, 64-bit wrap-around is
-     PqDeltaProofs.dbp_roundtrip_sample64); DELTA_LENGTH_BYTE_ARRAY / DELTA_BYTE_ARRAY / BYTE_STREAM_SPLIT / PLAIN round trips;
+(* ---- DELTA_BINARY_PACKED on the current decoder (after ec3835a3f) ---- *)
+(* RESUMPTION: every decoder state with a positive miniblock size, every outcome; n1 + n2 must not
+   exceed the values still available (beyond that the single call underflows values_remaining:
+   PqDbpSplit.dbp_read_split_needs_avail), dbp_avail s = (if d_first s then 1 else 0) + d_rem s *)
+Theorem C10_dbp_read_split : forall bits n1 n2 s,
+  0 < d_per s -> N.of_nat (n1 + n2) <= dbp_avail s ->
+  dbp_read bits (n1 + n2) s =
+  ('(v1, s1) <- dbp_read bits n1 s ;; '(v2, s2) <- dbp_read bits n2 s1 ;; Ok (v1 ++ v2, s2)).
+Proof. exact dbp_read_split. Qed.
+Print Assumptions C10_dbp_read_split.
+
+(* single read round trip: any value list (empty and single-value pages included), 32 and 64 bit,
+   any block geometry allowed by the format, wrap-around deltas; the cursor ends exactly behind the page *)
+Theorem C10_dbp_roundtrip : forall bits block mbc vals rest, dbp_params_ok bits block mbc ->
+  Forall (fun v => v < 2 ^ bits) vals -> N.of_nat (length vals) < 2 ^ 32 -> Forall (fun b => b < 256) rest ->
+  exists s s', dbp_new bits (dbp_encode bits block mbc vals ++ rest) = Ok s /\
+               dbp_read bits (length vals) s = Ok (vals, s') /\
+               d_rem s' = 0 /\ d_first s' = false /\ dbp_into_cursor s' = Ok rest /\
+               d_total s = N.of_nat (length vals).
+Proof. exact dbp_roundtrip. Qed.
+Print Assumptions C10_dbp_roundtrip.
+
+Example C10_dbp_params_satisfiable :
+  dbp_params_ok 32 128 4 /\ dbp_params_ok 64 128 4 /\ dbp_params_ok 64 256 8 /\ dbp_params_ok 32 128 1.
+Proof. exact params_ok_examples. Qed.
+
+(* EVERY read split (batch boundaries anywhere in the page) returns exactly the encoded values *)
+Theorem C10_dbp_decode_every_split : forall bits block mbc vals ns, dbp_params_ok bits block mbc ->
+  Forall (fun v => v < 2 ^ bits) vals -> N.of_nat (length vals) < 2 ^ 32 ->
+  sum_nat ns = length vals ->
+  exists out, dbp_decode_split bits (dbp_encode bits block mbc vals) ns = Ok out /\ concat out = vals.
+Proof. exact dbp_decode_every_split. Qed.
+Print Assumptions C10_dbp_decode_every_split.
+
+Theorem C10_dbp_decode_any_split : forall bits block mbc vals ns out, dbp_params_ok bits block mbc ->
+  Forall (fun v => v < 2 ^ bits) vals -> N.of_nat (length vals) < 2 ^ 32 ->
+  sum_nat ns = length vals ->
+  dbp_decode_split bits (dbp_encode bits block mbc vals) ns = Ok out -> concat out = vals.
+Proof. exact dbp_decode_any_split. Qed.
+Print Assumptions C10_dbp_decode_any_split.
+
+Theorem C10_dbp_single_value : forall bits block mbc v, dbp_params_ok bits block mbc -> v < 2 ^ bits ->
+  dbp_decode_split bits (dbp_encode bits block mbc [v]) [1%nat] = Ok [[v]].
+Proof. exact dbp_single_value. Qed.
+Print Assumptions C10_dbp_single_value.
+
+(* the length prefix of DELTA_LENGTH_BYTE_ARRAY / DELTA_BYTE_ARRAY never fails (every length list, block
+   boundaries included) and leaves the data cursor exactly behind the padded last miniblock *)
+Theorem C10_dbp_read_lengths_roundtrip : forall block mbc lens rest, dbp_params_ok 32 block mbc ->
+  Forall (fun v => v < 2 ^ 32) lens -> N.of_nat (length lens) < 2 ^ 32 -> Forall (fun b => b < 256) rest ->
+  dbp_read_lengths (dbp_encode 32 block mbc lens ++ rest) = Ok (lens, rest).
+Proof. exact dbp_read_lengths_roundtrip. Qed.
+Print Assumptions C10_dbp_read_lengths_roundtrip.
+
+Theorem C10_dlba_roundtrip : forall block mbc vals, dbp_params_ok 32 block mbc ->
+  Forall (Forall (fun b => b < 256)) vals -> N.of_nat (length vals) < 2 ^ 32 -> N.of_nat (length (concat vals)) < 2 ^ 32 ->
+  dlba_decode (dlba_encode block mbc vals) = Ok vals.
+Proof. exact dlba_roundtrip_ok. Qed.
+Print Assumptions C10_dlba_roundtrip.
+
+Theorem C10_dba_roundtrip : forall block mbc vals, dbp_params_ok 32 block mbc ->
+  Forall (Forall (fun b => b < 256)) vals -> Forall (fun v => N.of_nat (length v) < 2 ^ 32) vals -> N.of_nat (length vals) < 2 ^ 32 ->
+  dba_decode (dba_encode block mbc vals) = Ok vals.
+Proof. exact dba_roundtrip_ok. Qed.
+Print Assumptions C10_dba_roundtrip.
+
+(* NOT proved (the targets of the next revision):
    - thrift_roundtrip and the file-level statement  read_file (write_file t lay) = Ok t  (needs a reader model of
-     page_reader.rs / column_reader.rs / thrift.rs); these layers are covered by the correspondence stage K1 only. *)
+     page_reader.rs / column_reader.rs / reader.rs / thrift.rs and of the dictionary page); these layers are covered by
+     the correspondence stage K1 only.  The per-page ingredients are all above: levels (RLE hybrid) -> assemble,
+     values by PLAIN / dictionary indices (RLE hybrid) / DELTA_* / BYTE_STREAM_SPLIT, each with its read split. *)
